@@ -349,6 +349,10 @@ func (self *BinaryConv) unmarshalMap(ctx context.Context, resp http.ResponseSett
 	// a JSON member name must be a string: every key kind except string (which is quoted by its own
 	// encoder) needs the quotes, i.e. all the integer kinds and bool
 	quoteKey := mapKeyDesc.Type() != proto.STRING
+	if mapKeyDesc.Type() == proto.INT64 && self.opts.Int642String {
+		// the int64 encoder already writes the quotes under this option
+		quoteKey = false
+	}
 	if quoteKey {
 		*out = append(*out, '"')
 	}
